@@ -3461,6 +3461,11 @@ func (db *DB) WriteSnapshotTo(ctx context.Context, dst io.Writer) (header ltx.He
 	// Determine current position & snapshot overriding WAL frames.
 	pos := db.Pos()
 	pageSize, pageN := db.pageSize, db.PageN()
+	if pageSize == 0 && pageN == 0 {
+		// A dropped database has no pages and no page size of its own but the
+		// header of its (empty) snapshot still needs a valid one.
+		pageSize = 4096
+	}
 	walFrameOffsets := make(map[uint32]int64, len(db.wal.frameOffsets))
 	for k, v := range db.wal.frameOffsets {
 		walFrameOffsets[k] = v
